@@ -293,3 +293,49 @@ def check_len_agreement(crate, rep, cfg):
                         why = "the sequence indexed at %s is not the one whose length was passed" % b.where(b2)
             rep.add("C14.LEN", key, ok, b.where(bb), "resolve_index is given the len() of the very Vec/slice that its result then indexes" + ("" if ok else " — VIOLATED: " + why))
     rep.floor("C14.LEN", "resolve_index call sites [%s]" % cfg, n, 2)
+    # slicing: slice_items clamps against the len() of its own `items` parameter and indexes only that parameter; for strings the caller
+    # hands it the collected chars / graphemes (not bytes)
+    from engine import iter_operands
+    si = crate.one("value::Value::slice::slice_items")
+    rep.analysed(si)
+    str_ = Tracer(si)
+    lens = [(bb, t) for bb, t in si.calls() if callee_def(t).endswith("::len")]
+    ok = len(lens) == 1 and all(l.kind == "param" and l.detail == 1 and not [p for p in l.projs if p.startswith(".")] for l in str_.operand(lens[0][1]["args"][0]))
+    idx_bases = set()
+    for b2 in [si] + [b for p_, b in crate.bodies.items() if p_.startswith(si.path + "::")]:
+        for bb, idx, st in b2.stmts():
+            pls = []
+            if idx != "t" and st.get("k") == "assign":
+                pls.append(st["pl"])
+                if "pl" in st["rv"]:
+                    pls.append(st["rv"]["pl"])
+            pls += [o["pl"] for o in iter_operands(st) if o["k"] in ("copy", "move")]
+            for pl in pls:
+                if any(isinstance(p, dict) and "idx" in p for p in pl["p"]):
+                    idx_bases.add((b2.path, pl["l"]))
+        for bb, t in b2.calls():
+            if callee_def(t) in ("std::ops::Index::index", "std::ops::IndexMut::index_mut"):
+                idx_bases.add((b2.path, "call"))
+    ok = ok and idx_bases == {(si.path, 1)}
+    rep.add("C14.LEN", "C14.LEN:slice_items:own-parameter", ok, si.where(0), "slice_items clamps against `items.len()` and indexes only `items` (its own parameter): %s" % sorted(idx_bases)
+            + ("" if ok else " — VIOLATED"))
+    sl = crate.one("value::Value::slice")
+    sltr = Tracer(sl)
+    k = 0
+    for bb, t in sl.calls():
+        if callee_def(t) != si.path:
+            continue
+        a0 = t["atys"][0] if t["atys"] else ""
+        if "value::Value" in a0:
+            continue
+        k += 1
+        ls = sltr.operand(t["args"][0])
+        ok = bool(ls) and all(l.kind == "call" and l.detail[0].endswith("Iterator::collect") for l in ls)
+        if ok:
+            for l in ls:
+                ct = sl.term(l.detail[2])
+                src = sltr.operand(ct["args"][0])
+                ok = ok and bool(src) and all(x.kind == "call" and (x.detail[0].endswith("::chars") or "graphemes" in x.detail[0]) for x in src)
+        rep.add("C14.LEN", "C14.LEN:slice:string-by-chars#%d" % k, ok, sl.where(bb), "for a string, slice_items receives the collected chars()/graphemes() of the string (element type %s)"
+                % a0[:30] + ("" if ok else " — VIOLATED: positions would count something other than characters"))
+    rep.floor("C14.LEN", "string calls of slice_items [%s]" % cfg, k, 1)
